@@ -32,7 +32,7 @@ def main():
     pid = a.pid.upper()
     ctx = common.Ctx(pid, tier, seed)
     try:
-        binfo = {} if a.no_build else common.build()
+        binfo = {} if a.no_build else common.build(pid)
     except common.BuildError as e:
         # the framework itself could not be built: the property is not shown
         print(str(e)[-3000:])
